@@ -309,6 +309,104 @@ theorem extractLoop_missing (values : List RawValue) (hv : values.length ≤ 655
         rw [if_neg (by omega)]
         exact hres
 
+theorem wirePairs_map_index (wire : List Nat) (j : Nat) : (wirePairs j wire).map (·.index) = wire := by
+  induction wire generalizing j with
+  | nil => rfl
+  | cons ix rest ih => simp [wirePairs, ih]
+
+/-- If the loop returns a key at all, the table it walked was strictly ascending by marker index and every marker was
+among the values still to be read — whatever the table (no sortedness assumed). -/
+theorem extractLoop_ok_imp (count : Nat) (ps : List PkIndex) (iter : List RawValue) (off : Nat)
+    (acc r : List (Option (List UInt8))) (h : extractLoop count ps iter off acc = .ok r) :
+    ps.Pairwise (fun a b => a.index < b.index) ∧ ∀ p ∈ ps, off ≤ p.index ∧ p.index < off + iter.length := by
+  induction ps generalizing iter off acc with
+  | nil => exact ⟨List.Pairwise.nil, by simp⟩
+  | cons p ps ih =>
+    unfold extractLoop at h
+    split at h
+    · cases h
+    · rename_i hge
+      cases hd : iter.drop (p.index - off) with
+      | nil => rw [hd] at h; cases h
+      | cons v rest =>
+        rw [hd] at h
+        simp only [] at h
+        have hlen : (iter.drop (p.index - off)).length = rest.length + 1 := by rw [hd]; rfl
+        rw [List.length_drop] at hlen
+        cases hs : store acc p.sequence v with
+        | none => rw [hs] at h; cases h
+        | some acc' =>
+          rw [hs] at h
+          simp only [] at h
+          split at h
+          · cases h
+          · obtain ⟨hpw, hall⟩ := ih rest (p.index + 1) acc' h
+            refine ⟨List.pairwise_cons.mpr ⟨fun q hq => by have := (hall q hq).1; omega, hpw⟩, ?_⟩
+            intro q hq
+            rcases List.mem_cons.mp hq with rfl | hq'
+            · omega
+            · have := hall q hq'
+              omega
+
+/-- On a table sorted (non-strictly) by marker index whose markers are all among the bound values, a repeated marker
+— or a marker below the iterator offset — makes `index - offset` underflow: a panic (overflow checks on). -/
+theorem extractLoop_dup_panics (values : List RawValue) (hv : values.length ≤ 65535) (ps : List PkIndex)
+    (off : Nat) (acc : List (Option (List UInt8)))
+    (hall : ∀ p ∈ ps, p.index < values.length ∧ p.sequence < acc.length)
+    (hbad : ¬ ps.Pairwise (fun a b => a.index < b.index) ∨ ∃ p ∈ ps, p.index < off) :
+    extractLoop values.length ps (values.drop off) off acc = .error .panic := by
+  induction ps generalizing off acc with
+  | nil =>
+    rcases hbad with h | ⟨p, hp, _⟩
+    · exact absurd List.Pairwise.nil h
+    · cases hp
+  | cons p ps ih =>
+    obtain ⟨h2, h3⟩ := hall p List.mem_cons_self
+    unfold extractLoop
+    by_cases hlt : p.index < off
+    · rw [if_pos hlt]
+    · rw [if_neg hlt]
+      have hdrop : (values.drop off).drop (p.index - off) = values[p.index] :: values.drop (p.index + 1) := by
+        rw [List.drop_drop]
+        have : off + (p.index - off) = p.index := by omega
+        rw [this]
+        exact List.drop_eq_getElem_cons h2
+      rw [hdrop]
+      have hget : values.getD p.index .null = values[p.index] := by
+        simp [List.getD, List.getElem?_eq_getElem h2]
+      have hplace : store acc p.sequence values[p.index] = some (place values acc p) := by
+        unfold place store
+        rw [hget]
+        split <;> simp_all
+      simp only []
+      rw [hplace]
+      simp only []
+      rw [if_neg (by omega)]
+      apply ih
+      · intro q hq
+        obtain ⟨q2, q3⟩ := hall q (List.mem_cons_of_mem _ hq)
+        exact ⟨q2, by rw [place_length]; exact q3⟩
+      · rcases hbad with h | ⟨q, hq, hql⟩
+        · rw [List.pairwise_cons] at h
+          by_cases hfirst : ∀ q ∈ ps, p.index < q.index
+          · left
+            intro hpw
+            exact h ⟨hfirst, hpw⟩
+          · right
+            have : ∃ q ∈ ps, ¬ p.index < q.index := by
+              apply Classical.byContradiction
+              intro hne
+              apply hfirst
+              intro q hq
+              apply Classical.byContradiction
+              intro hnq
+              exact hne ⟨q, hq, hnq⟩
+            obtain ⟨q, hq, hnq⟩ := this
+            exact ⟨q, hq, by omega⟩
+        · rcases List.mem_cons.mp hq with rfl | hq'
+          · exact absurd hql hlt
+          · exact Or.inr ⟨q, hq', by omega⟩
+
 theorem foldl_place_untouched (values : List RawValue) (ps : List PkIndex) (acc : List (Option (List UInt8)))
     (s : Nat) (h : ∀ q ∈ ps, q.sequence ≠ s) : (ps.foldl (place values) acc)[s]? = acc[s]? := by
   induction ps generalizing acc with
